@@ -1,5 +1,14 @@
 """Gen/WriterNum.v: the constants of usvg::writer::write_num (source-derived):
-POW_VEC, how the precision indexes it, the bound under which an integral value is written as i32."""
+POW_VEC, how the precision indexes it, the bound under which an integral value is written as i32.
+
+Gen/XmlEscape.v: what is escaped when strings are written (source-derived):
+  * from the `xmlwriter` crate (the version named in /repo/Cargo.lock, read from the cargo registry): the byte that
+    `escape_attribute_value` looks for per quote option, the bytes it splices in and the `start = i + <n>` step;
+    the same for `escape_text`;
+  * from usvg's writer.rs: every `.replace(<char>, "<str>")` applied before xmlwriter sees a string (today one:
+    the text of a span, `&` -> `&amp;`)."""
+import glob
+import os
 import re
 
 PROPS = ['C07', 'C08']
@@ -59,3 +68,110 @@ def generate(api):
         api.ok('tables', 'write_num', entries=len(vals), clamp=clamp, guard=guard)
     except (api.Unsupported, OSError, ValueError, IndexError) as e:
         api.broken('table', 'writer.write_num', PROPS, e)
+    generate_escape(api)
+
+
+def _bytes_lit(t):
+    """Rust byte / char / string literal body -> list of byte values"""
+    out = []
+    i = 0
+    while i < len(t):
+        if t[i] == '\\':
+            c = t[i + 1]
+            out.append({'n': 10, 't': 9, 'r': 13, '\\': 92, "'": 39, '"': 34, '0': 0}[c])
+            i += 2
+        else:
+            out += list(t[i].encode('utf-8'))
+            i += 1
+    return out
+
+
+def _fn(src, name):
+    m = re.search(r"fn\s+%s\b[^{]*\{" % name, src)
+    if not m:
+        return None
+    i = m.end() - 1
+    depth, j = 0, i
+    while j < len(src):
+        if src[j] == '{':
+            depth += 1
+        elif src[j] == '}':
+            depth -= 1
+            if depth == 0:
+                return src[i + 1:j]
+        j += 1
+    return None
+
+
+def xmlwriter_source(api):
+    lock = api.rd('Cargo.lock')
+    m = re.search(r'name = "xmlwriter"\nversion = "([^"]+)"', lock)
+    if not m:
+        raise api.Unsupported("xmlwriter is not in Cargo.lock")
+    home = os.environ.get('CARGO_HOME', os.path.expanduser('~/.cargo'))
+    cands = sorted(glob.glob(os.path.join(home, 'registry', 'src', '*', 'xmlwriter-' + m.group(1), 'src', 'lib.rs')))
+    if not cands:
+        raise api.Unsupported("source of xmlwriter %s not found in the cargo registry" % m.group(1))
+    return m.group(1), open(cands[0], encoding='utf-8').read()
+
+
+def generate_escape(api):
+    try:
+        ver, xs = xmlwriter_source(api)
+        lst = lambda bs: "[%s]" % "; ".join(str(b) for b in bs)
+        # --- escape_attribute_value
+        b = _fn(xs, 'escape_attribute_value')
+        if b is None:
+            raise api.Unsupported("xmlwriter::escape_attribute_value not found")
+        mq = re.search(r"let\s+quote\s*=\s*if\s+self\.opt\.use_single_quote\s*\{\s*b'((?:\\.|[^'])+)'\s*\}\s*else\s*\{\s*b'((?:\\.|[^'])+)'\s*\}", b)
+        ms = re.search(r'let\s+s\s*=\s*if\s+self\.opt\.use_single_quote\s*\{\s*b"([^"]*)"\s*\}\s*else\s*\{\s*b"([^"]*)"\s*\}', b)
+        mk = re.search(r"start\s*=\s*i\s*\+\s*(\d+)\s*;", b)
+        if not (mq and ms and mk):
+            raise api.Unsupported("xmlwriter::escape_attribute_value has an unexpected shape")
+        if not re.search(r"while\s+let\s+Some\(idx\)\s*=\s*self\.buf\[start\.\.\]\.iter\(\)\.position\(\|c\|\s*\*c\s*==\s*quote\)", b) \
+                or not re.search(r"self\.buf\.splice\(i\.\.i\s*\+\s*1,\s*s\.iter\(\)\.cloned\(\)\)", b):
+            raise api.Unsupported("xmlwriter::escape_attribute_value: search / splice loop not recognised")
+        qs, qd = _bytes_lit(mq.group(1)), _bytes_lit(mq.group(2))
+        if len(qs) != 1 or len(qd) != 1:
+            raise api.Unsupported("quote literal is not one byte")
+        # --- escape_text
+        t = _fn(xs, 'escape_text')
+        if t is None:
+            raise api.Unsupported("xmlwriter::escape_text not found")
+        mt = re.search(r"position\(\|c\|\s*\*c\s*==\s*b'((?:\\.|[^'])+)'\)", t)
+        mr = re.search(r'self\.buf\.splice\(i\.\.i\s*\+\s*1,\s*b"([^"]*)"\.iter\(\)\.cloned\(\)\)', t)
+        mk2 = re.search(r"start\s*=\s*i\s*\+\s*(\d+)\s*;", t)
+        if not (mt and mr and mk2):
+            raise api.Unsupported("xmlwriter::escape_text has an unexpected shape")
+        # write_attribute_fmt / write_text_fmt do call them on what was just appended
+        wa = _fn(xs, 'write_attribute_fmt') or ''
+        wt = _fn(xs, 'write_text_fmt') or ''
+        if not re.search(r"let\s+start\s*=\s*self\.buf\.len\(\);\s*self\.buf\.write_fmt\(fmt\)\.unwrap\(\);\s*self\.escape_attribute_value\(start\);", wa):
+            raise api.Unsupported("xmlwriter::write_attribute_fmt does not escape what it appends")
+        if not re.search(r"let\s+start\s*=\s*self\.buf\.len\(\);\s*self\.buf\.write_fmt\(fmt\)\.unwrap\(\);\s*self\.escape_text\(start\);", wt):
+            raise api.Unsupported("xmlwriter::write_text_fmt does not escape what it appends")
+        # --- usvg writer.rs: replacements applied before xmlwriter
+        ws = re.sub(r"//[^\n]*", "", api.rd(REL))
+        sites = []
+        for m in re.finditer(r"(\w+)\.replace\(\s*'((?:\\.|[^'])+)'\s*,\s*\"([^\"]*)\"\s*\)", ws):
+            line = ws[ws.rfind('\n', 0, m.start()) + 1:ws.find('\n', m.end())]
+            ctx = 'text' if re.search(r"write_text\(", line) else ('attribute' if 'write_attribute' in line or 'write_svg_attribute' in line else 'other')
+            cb = _bytes_lit(m.group(2))
+            if len(cb) != 1:
+                raise api.Unsupported("writer.rs: replace of a non-ASCII char")
+            sites.append((ctx, m.group(1), cb[0], _bytes_lit(m.group(3))))
+        if ws.count('.replace(') != len(sites):
+            raise api.Unsupported("writer.rs: a `.replace(` call the translator does not understand")
+        out = [api.HEADER, "From Coq Require Import NArith List String.\nImport ListNotations.\nLocal Open Scope N_scope.\n",
+               "(* xmlwriter %s :: escape_attribute_value: (byte searched for, bytes spliced in, `start = i + n`) per use_single_quote *)" % ver,
+               "Definition xw_attr_escape (single_quote : bool) : N * list N * nat :=\n  if single_quote then (%d, %s, %s%%nat) else (%d, %s, %s%%nat)."
+               % (qs[0], lst(_bytes_lit(ms.group(1))), mk.group(1), qd[0], lst(_bytes_lit(ms.group(2))), mk.group(1)),
+               "(* xmlwriter %s :: escape_text *)" % ver,
+               "Definition xw_text_escape : N * list N * nat := (%d, %s, %s%%nat)." % (_bytes_lit(mt.group(1))[0], lst(_bytes_lit(mr.group(1))), mk2.group(1)),
+               "(* %s :: every `x.replace(char, str)`: (what the result is passed to, receiver, byte, replacement) *)" % REL,
+               "Definition writer_replace_sites : list (string * string * N * list N) :=\n  [%s].\n"
+               % "; ".join('("%s"%%string, "%s"%%string, %d, %s)' % (c, r, b0, lst(rep)) for c, r, b0, rep in sites)]
+        api.write_gen('XmlEscape.v', "\n".join(out))
+        api.ok('tables', 'xml_escape', xmlwriter=ver, replace_sites=len(sites))
+    except (api.Unsupported, OSError, ValueError, IndexError, KeyError) as e:
+        api.broken('table', 'writer.xml_escape', ['C07'], e)
